@@ -238,4 +238,255 @@ theorem W_commonFold {n1 n2 new : Nat} (h4 : new ≠ n1) (h5 : new ≠ n2) :
 
 end folds
 
+
+section foldsK
+variable {α : Type} [Add α] [OfNat α 0]
+
+theorem K_commonFold {n1 n2 new : Nat} (h4 : new ≠ n1) (h5 : new ≠ n2) :
+    ∀ (cs : List Nat) (nb : Dict (Dict α)), cs.Nodup → (∀ c ∈ cs, c ≠ n1 ∧ c ≠ n2 ∧ c ≠ new) →
+    ∀ x y, K (cs.foldl (commonStep n1 n2 new) nb) x y =
+      if (x = new ∧ y ∈ cs) ∨ (y = new ∧ x ∈ cs) then true
+      else if ((x = n1 ∨ x = n2) ∧ y ∈ cs) ∨ ((y = n1 ∨ y = n2) ∧ x ∈ cs) then false
+      else K nb x y := by
+  intro cs
+  induction cs with
+  | nil => intro nb _ _ x y; simp
+  | cons c cs ih =>
+    intro nb hnd hcs x y
+    have hnd' := List.nodup_cons.mp hnd
+    obtain ⟨h1, h2, h3⟩ := hcs c List.mem_cons_self
+    have hcs' : ∀ c' ∈ cs, c' ≠ n1 ∧ c' ≠ n2 ∧ c' ≠ new := fun c' hc' => hcs c' (List.mem_cons_of_mem _ hc')
+    rw [List.foldl_cons, ih _ hnd'.2 hcs' x y]
+    simp only [K_commonStep nb h1 h2 h3 h4 h5, List.mem_cons]
+    have hcne : ∀ z, z ∈ cs → z ≠ c := fun z hz e => hnd'.1 (e ▸ hz)
+    have hccs : c ∉ cs := hnd'.1
+    have hnewcs : new ∉ cs := fun hm => (hcs' new hm).2.2 rfl
+    have hn1cs : n1 ∉ cs := fun hm => (hcs' n1 hm).1 rfl
+    have hn2cs : n2 ∉ cs := fun hm => (hcs' n2 hm).2.1 rfl
+    have hxcs : x ∈ cs → x ≠ c ∧ x ≠ n1 ∧ x ≠ n2 ∧ x ≠ new := fun hm =>
+      ⟨hcne x hm, (hcs' x hm).1, (hcs' x hm).2.1, (hcs' x hm).2.2⟩
+    have hycs : y ∈ cs → y ≠ c ∧ y ≠ n1 ∧ y ≠ n2 ∧ y ≠ new := fun hm =>
+      ⟨hcne y hm, (hcs' y hm).1, (hcs' y hm).2.1, (hcs' y hm).2.2⟩
+    have hx : x = new ∨ x = c ∨ x = n1 ∨ x = n2 ∨ x ∈ cs ∨
+        (x ≠ new ∧ x ≠ c ∧ x ≠ n1 ∧ x ≠ n2 ∧ x ∉ cs) := by
+      by_cases e1 : x = new; · exact Or.inl e1
+      by_cases e2 : x = c; · exact Or.inr (Or.inl e2)
+      by_cases e3 : x = n1; · exact Or.inr (Or.inr (Or.inl e3))
+      by_cases e4 : x = n2; · exact Or.inr (Or.inr (Or.inr (Or.inl e4)))
+      by_cases e5 : x ∈ cs; · exact Or.inr (Or.inr (Or.inr (Or.inr (Or.inl e5))))
+      exact Or.inr (Or.inr (Or.inr (Or.inr (Or.inr ⟨e1, e2, e3, e4, e5⟩))))
+    have hy : y = new ∨ y = c ∨ y = n1 ∨ y = n2 ∨ y ∈ cs ∨
+        (y ≠ new ∧ y ≠ c ∧ y ≠ n1 ∧ y ≠ n2 ∧ y ∉ cs) := by
+      by_cases e1 : y = new; · exact Or.inl e1
+      by_cases e2 : y = c; · exact Or.inr (Or.inl e2)
+      by_cases e3 : y = n1; · exact Or.inr (Or.inr (Or.inl e3))
+      by_cases e4 : y = n2; · exact Or.inr (Or.inr (Or.inr (Or.inl e4)))
+      by_cases e5 : y ∈ cs; · exact Or.inr (Or.inr (Or.inr (Or.inr (Or.inl e5))))
+      exact Or.inr (Or.inr (Or.inr (Or.inr (Or.inr ⟨e1, e2, e3, e4, e5⟩))))
+    clear ih hcs hcs' hnd hnd'
+    have h1' := Ne.symm h1
+    have h2' := Ne.symm h2
+    have h3' := Ne.symm h3
+    have h4' := Ne.symm h4
+    have h5' := Ne.symm h5
+    rcases hx with hxe | hxe | hxe | hxe | hxm | ⟨a1, a2, a3, a4, a5⟩ <;>
+      rcases hy with hye | hye | hye | hye | hym | ⟨b1, b2, b3, b4, b5⟩ <;>
+      simp_all
+
+/-- effect of one iteration of the loop over the remaining neighbours of `node` -/
+theorem W_otherStep (nb : Dict (Dict α)) {node new c : Nat} (h1 : c ≠ node) (h3 : c ≠ new) (h4 : new ≠ node)
+    (x y : Nat) :
+    getEntry (otherStep node new nb c) x y =
+      if x = new ∧ y = c then getEntry nb node c
+      else if x = c ∧ y = new then getEntry nb c node
+      else if x = node ∧ y = c then 0
+      else if x = c ∧ y = node then 0
+      else getEntry nb x y := by
+  unfold otherStep
+  simp only [getEntry_setEntry, getEntry_delEntry]
+  have h1' := Ne.symm h1
+  have h3' := Ne.symm h3
+  have h4' := Ne.symm h4
+  by_cases hxn : x = new <;> by_cases hxc : x = c <;> by_cases hxd : x = node <;>
+    by_cases hyn : y = new <;> by_cases hyc : y = c <;> by_cases hyd : y = node <;> simp_all
+
+theorem K_otherStep (nb : Dict (Dict α)) {node new c : Nat} (h1 : c ≠ node) (h3 : c ≠ new) (h4 : new ≠ node)
+    (x y : Nat) :
+    K (otherStep node new nb c) x y =
+      if (x = new ∧ y = c) ∨ (x = c ∧ y = new) then true
+      else if (x = node ∧ y = c) ∨ (x = c ∧ y = node) then false
+      else K nb x y := by
+  unfold otherStep
+  simp only [K_setEntry, K_delEntry]
+  have h1' := Ne.symm h1
+  have h3' := Ne.symm h3
+  have h4' := Ne.symm h4
+  by_cases hxn : x = new <;> by_cases hxc : x = c <;> by_cases hxd : x = node <;>
+    by_cases hyn : y = new <;> by_cases hyc : y = c <;> by_cases hyd : y = node <;> simp_all
+
+theorem W_otherFold {node new : Nat} (h4 : new ≠ node) :
+    ∀ (cs : List Nat) (nb : Dict (Dict α)), cs.Nodup → (∀ c ∈ cs, c ≠ node ∧ c ≠ new) →
+    ∀ x y, getEntry (cs.foldl (otherStep node new) nb) x y =
+      if x = new ∧ y ∈ cs then getEntry nb node y
+      else if y = new ∧ x ∈ cs then getEntry nb x node
+      else if x = node ∧ y ∈ cs then 0
+      else if y = node ∧ x ∈ cs then 0
+      else getEntry nb x y := by
+  intro cs
+  induction cs with
+  | nil => intro nb _ _ x y; simp
+  | cons c cs ih =>
+    intro nb hnd hcs x y
+    have hnd' := List.nodup_cons.mp hnd
+    obtain ⟨h1, h3⟩ := hcs c List.mem_cons_self
+    have hcs' : ∀ c' ∈ cs, c' ≠ node ∧ c' ≠ new := fun c' hc' => hcs c' (List.mem_cons_of_mem _ hc')
+    rw [List.foldl_cons, ih _ hnd'.2 hcs' x y]
+    simp only [W_otherStep nb h1 h3 h4, List.mem_cons]
+    have hcne : ∀ z, z ∈ cs → z ≠ c := fun z hz e => hnd'.1 (e ▸ hz)
+    have hccs : c ∉ cs := hnd'.1
+    have hnewcs : new ∉ cs := fun hm => (hcs' new hm).2 rfl
+    have hndcs : node ∉ cs := fun hm => (hcs' node hm).1 rfl
+    have hxcs : x ∈ cs → x ≠ c ∧ x ≠ node ∧ x ≠ new := fun hm => ⟨hcne x hm, (hcs' x hm).1, (hcs' x hm).2⟩
+    have hycs : y ∈ cs → y ≠ c ∧ y ≠ node ∧ y ≠ new := fun hm => ⟨hcne y hm, (hcs' y hm).1, (hcs' y hm).2⟩
+    clear ih hcs hcs' hnd hnd'
+    have h1' := Ne.symm h1
+    have h3' := Ne.symm h3
+    have h4' := Ne.symm h4
+    by_cases hxn : x = new <;> by_cases hxc : x = c <;> by_cases hxd : x = node <;> by_cases hxm : x ∈ cs <;>
+      by_cases hyn : y = new <;> by_cases hyc : y = c <;> by_cases hyd : y = node <;> by_cases hym : y ∈ cs <;>
+      simp_all
+
+theorem K_otherFold {node new : Nat} (h4 : new ≠ node) :
+    ∀ (cs : List Nat) (nb : Dict (Dict α)), cs.Nodup → (∀ c ∈ cs, c ≠ node ∧ c ≠ new) →
+    ∀ x y, K (cs.foldl (otherStep node new) nb) x y =
+      if (x = new ∧ y ∈ cs) ∨ (y = new ∧ x ∈ cs) then true
+      else if (x = node ∧ y ∈ cs) ∨ (y = node ∧ x ∈ cs) then false
+      else K nb x y := by
+  intro cs
+  induction cs with
+  | nil => intro nb _ _ x y; simp
+  | cons c cs ih =>
+    intro nb hnd hcs x y
+    have hnd' := List.nodup_cons.mp hnd
+    obtain ⟨h1, h3⟩ := hcs c List.mem_cons_self
+    have hcs' : ∀ c' ∈ cs, c' ≠ node ∧ c' ≠ new := fun c' hc' => hcs c' (List.mem_cons_of_mem _ hc')
+    rw [List.foldl_cons, ih _ hnd'.2 hcs' x y]
+    simp only [K_otherStep nb h1 h3 h4, List.mem_cons]
+    have hcne : ∀ z, z ∈ cs → z ≠ c := fun z hz e => hnd'.1 (e ▸ hz)
+    have hccs : c ∉ cs := hnd'.1
+    have hnewcs : new ∉ cs := fun hm => (hcs' new hm).2 rfl
+    have hndcs : node ∉ cs := fun hm => (hcs' node hm).1 rfl
+    have hxcs : x ∈ cs → x ≠ c ∧ x ≠ node ∧ x ≠ new := fun hm => ⟨hcne x hm, (hcs' x hm).1, (hcs' x hm).2⟩
+    have hycs : y ∈ cs → y ≠ c ∧ y ≠ node ∧ y ≠ new := fun hm => ⟨hcne y hm, (hcs' y hm).1, (hcs' y hm).2⟩
+    clear ih hcs hcs' hnd hnd'
+    have h1' := Ne.symm h1
+    have h3' := Ne.symm h3
+    have h4' := Ne.symm h4
+    by_cases hxn : x = new <;> by_cases hxc : x = c <;> by_cases hxd : x = node <;> by_cases hxm : x ∈ cs <;>
+      by_cases hyn : y = new <;> by_cases hyc : y = c <;> by_cases hyd : y = node <;> by_cases hym : y ∈ cs <;>
+      simp_all
+
+end foldsK
+
+
+/-! ### rows keep distinct keys -/
+section rowsNodup
+variable {α : Type} [Add α] [OfNat α 0]
+
+def RowsNodup (nb : Dict (Dict α)) : Prop := ∀ x, (row nb x).keys.Nodup
+
+theorem keys_set_of_mem {β : Type} {d : Dict β} {k : Nat} (h : k ∈ Dict.keys d) (v : β) :
+    Dict.keys (d.set k v) = Dict.keys d := by
+  induction d with
+  | nil => simp [Dict.keys] at h
+  | cons p r ih =>
+    obtain ⟨k', v'⟩ := p
+    simp only [Dict.set]
+    split
+    · rename_i e; subst e; simp [Dict.keys]
+    · rename_i e
+      simp only [Dict.keys, List.map_cons, List.mem_cons] at h ⊢
+      rcases h with h | h
+      · exact absurd h.symm e
+      · have := ih h
+        simp only [Dict.keys] at this
+        rw [this]
+
+theorem nodup_keys_set {β : Type} {d : Dict β} (hd : (Dict.keys d).Nodup) (k : Nat) (v : β) :
+    (Dict.keys (d.set k v)).Nodup := by
+  by_cases h : k ∈ Dict.keys d
+  · rw [keys_set_of_mem h]; exact hd
+  · exact Hier.nodup_set_fresh hd h v
+
+theorem rowsNodup_setEntry {nb : Dict (Dict α)} (h : RowsNodup nb) (p q : Nat) (v : α) :
+    RowsNodup (setEntry nb p q v) := by
+  intro x
+  unfold setEntry
+  rw [row_set]
+  split
+  · exact nodup_keys_set (h p) q v
+  · exact h x
+
+theorem rowsNodup_delEntry {nb : Dict (Dict α)} (h : RowsNodup nb) (p q : Nat) :
+    RowsNodup (delEntry nb p q) := by
+  intro x
+  unfold delEntry
+  rw [row_set]
+  split
+  · exact Dict.nodup_keys_erase (h p) q
+  · exact h x
+
+theorem rowsNodup_erase {nb : Dict (Dict α)} (h : RowsNodup nb) (p : Nat) : RowsNodup (nb.erase p) := by
+  intro x
+  rw [row_erase]
+  split
+  · simp [Dict.keys]
+  · exact h x
+
+theorem rowsNodup_commonStep {nb : Dict (Dict α)} (h : RowsNodup nb) (n1 n2 new c : Nat) :
+    RowsNodup (commonStep n1 n2 new nb c) := by
+  unfold commonStep
+  exact rowsNodup_setEntry (rowsNodup_delEntry (rowsNodup_delEntry (rowsNodup_setEntry
+    (rowsNodup_delEntry (rowsNodup_delEntry h _ _) _ _) _ _ _) _ _) _ _) _ _ _
+
+theorem rowsNodup_otherStep {nb : Dict (Dict α)} (h : RowsNodup nb) (node new c : Nat) :
+    RowsNodup (otherStep node new nb c) := by
+  unfold otherStep
+  exact rowsNodup_setEntry (rowsNodup_delEntry (rowsNodup_setEntry (rowsNodup_delEntry h _ _) _ _ _) _ _) _ _ _
+
+theorem rowsNodup_selfStep {nb : Dict (Dict α)} (h : RowsNodup nb) (node new c : Nat) :
+    RowsNodup (selfStep node new nb c) := by
+  unfold selfStep
+  split
+  · exact rowsNodup_setEntry h _ _ _
+  · exact h
+
+theorem rowsNodup_foldl {β : Type} (f : Dict (Dict α) → β → Dict (Dict α))
+    (hf : ∀ nb b, RowsNodup nb → RowsNodup (f nb b)) :
+    ∀ (l : List β) (nb : Dict (Dict α)), RowsNodup nb → RowsNodup (l.foldl f nb) := by
+  intro l
+  induction l with
+  | nil => intro nb h; exact h
+  | cons b bs ih => intro nb h; exact ih _ (hf nb b h)
+
+theorem rowsNodup_nodeStep {nb : Dict (Dict α)} (h : RowsNodup nb) (n1 n2 new : Nat) (nodes : List Nat)
+    (node : Nat) : RowsNodup (nodeStep n1 n2 new nodes nb node) := by
+  unfold nodeStep
+  refine rowsNodup_erase ?_ _
+  refine rowsNodup_foldl _ (fun nb b hb => rowsNodup_selfStep hb _ _ _) _ _ ?_
+  exact rowsNodup_foldl _ (fun nb b hb => rowsNodup_otherStep hb _ _ _) _ _ h
+
+theorem rowsNodup_mergeNb {nb : Dict (Dict α)} (h : RowsNodup nb) (n1 n2 new : Nat) :
+    RowsNodup (mergeNb nb n1 n2 new) := by
+  unfold mergeNb
+  refine rowsNodup_foldl _ (fun nb b hb => rowsNodup_nodeStep hb _ _ _ _ _) _ _ ?_
+  refine rowsNodup_foldl _ (fun nb b hb => rowsNodup_commonStep hb _ _ _ _) _ _ ?_
+  intro x
+  rw [row_set]
+  split
+  · simp [Dict.keys]
+  · exact h x
+
+end rowsNodup
+
 end SkNet.Agg
